@@ -620,6 +620,8 @@ class Sym:
     def _cmp(self, o, f, uf):
         if isinstance(o, np.ndarray):
             return _arr_binop(self, o, uf)
+        if isinstance(o, (float, np.floating)) and math.isnan(float(o)):
+            return uf is np.not_equal          # every comparison with NaN is False, except !=
         if isinstance(o, SymC):
             return NotImplemented
         ot = self._other(o)
@@ -1687,8 +1689,25 @@ def _median(a, axis=None, **kw):
     return _percentile(a, 50, axis)
 
 
-@implements(np.nanmin, np.min, np.amin)
+def _is_nan_value(v):
+    return isinstance(v, (float, np.floating)) and math.isnan(float(v))
+
+
+def _nan_smin(a, b):
+    if _is_nan_value(a):
+        return b
+    if _is_nan_value(b):
+        return a
+    return smin(a, b)
+
+
+@implements(np.nanmin)
 def _nanmin(a, axis=None, **kw):
+    return _reduce(_obj(a), _nan_smin, None, axis, False)
+
+
+@implements(np.min, np.amin)
+def _min(a, axis=None, **kw):
     return _reduce(_obj(a), smin, None, axis, False)
 
 
@@ -1708,8 +1727,12 @@ def _nanargmin(a, axis=None, **kw):
     a2 = a.reshape(a.shape[0], -1)
     out = np.zeros(a2.shape[1], dtype=int)
     for j in range(a2.shape[1]):
-        best = 0
-        for i in range(1, a2.shape[0]):
+        cand = [i for i in range(a2.shape[0]) if not _is_nan_value(a2[i, j])]
+        if not cand:
+            # numpy: nanargmin raises for a slice that holds only NaN
+            raise ValueError('All-NaN slice encountered')
+        best = cand[0]
+        for i in cand[1:]:
             if bool(_tb(a2[i, j] < a2[best, j])):   # forks
                 best = i
         out[j] = best
